@@ -3061,7 +3061,13 @@ impl Engine for Read {
          system info (cpu_info text), every thread's and the exception's CPU context (through the accessor and a direct read), stack_memory, last_error x3, the stack / memory dump \
          loops of the printers, crash reason + address, the five text-stream iterators (every key/value as offset+length into the stream), Breakpad / assertion / macOS crash info / boot args; \
          the model's exact allocations must occur among the real allocator's requests. \
-         Oracle-only (not modelled): misc info, linux maps, unified memory info, the text every print emits, the remaining accessors."
+         Round 4 (MdModel.DumpFull.readMore, 11 more groups): misc info (revision, the sixteen scalar accessors, time zone, build strings as decoded by print, enabled XSTATE features), \
+         linux maps (every entry, memory_info_at_address around every entry; a panic of the reader is compared by panic-site class stack / sysv / smaps), UnifiedMemoryInfoList \
+         (which list, iter, by_addr, lookups), os_parts, per module debug_identifier / code_identifier / debug_file / version / the bytes print renders as hex, unloaded modules' \
+         code identifiers, soft errors, and per thread / exception context valid_registers + get_register of every general-purpose register + register_size + format_register; \
+         directed families: MISC_INFO of every revision size x flag word x array contents x enabled_features (all ones / bit 63 / bit 0 / both), CodeView records of every kind cut anywhere \
+         with hostile file names, `uname` texts, memory-info lists with empty / huge / overlapping regions, smaps texts around the v*1024 overflow. \
+         Oracle-only (not modelled): the text every print emits, the remaining accessors."
             .into()
     }
 
